@@ -76,6 +76,11 @@ func judge(sc *scen.Scenario, res *scen.Result, runErr error) (verdict string, e
 				return "violation", fmt.Errorf("key exchange does not complete: the client is still factorising pq = %d * %d (%s; the factorisation usually takes at most a few seconds)", sc.HS.P, sc.HS.Q, n)
 			}
 		}
+		for _, n := range res.Notes {
+			if strings.HasPrefix(n, "CLIENT-IDLE-AFTER-REPLY") {
+				return "violation", fmt.Errorf("key exchange does not complete (replies cut at %v): %s", sc.HS.Splits, n)
+			}
+		}
 		if serverSide != "" {
 			return "violation", fmt.Errorf("the conformant server cannot continue the exchange: %s", serverSide)
 		}
@@ -151,6 +156,12 @@ func classes(sc *scen.Scenario, res *scen.Result, intended scen.Corner) []string
 	}
 	if sc.HS.P > 3037000499 && sc.HS.Q > 3037000499 {
 		cls = append(cls, "pq:above-2^63")
+	}
+	for _, k := range sc.HS.Splits {
+		if k > 0 {
+			cls = append(cls, "reply-in-two-tcp-segments")
+			break
+		}
 	}
 	if sc.HS.PQPad8 {
 		cls = append(cls, "pq:padded-to-8")
